@@ -27,7 +27,9 @@ import (
 // C20 — the network coordinate stays valid whatever peers report.
 //
 // A case is a client configuration (dimensionality, adjustment window,
-// latency filter size; Vivaldi gains at their defaults) and a sequence of
+// latency filter size, and the bounds the statement names - minimum height,
+// maximum error - plus the gravity constant, each at its default or at another
+// value; the Vivaldi gains CE/CC at their defaults) and a sequence of
 // observations (peer coordinate with adversarial floats, round-trip time,
 // peer name) and ForgetNode calls.
 //
